@@ -135,6 +135,8 @@ class CtxWorld(World):
         servertype = rng.choice(["thread", "multiplex"])
         nclients = rng.randint(2, 3)
         kn = [0]
+        # 15% of the plans send big requests (beyond 8 kB: buffer-reuse and chunking thresholds of a receiving side)
+        pads = [0, 0, 300, 700, 5000] if rng.random() >= 0.15 else [0, 9000, 9000, 12000, 20000, 70000]
 
         def call():
             kn[0] += 1
@@ -143,7 +145,7 @@ class CtxWorld(World):
                     "ow_delay": rng.choice([0, 0, 0.005, 0.02]), "work": rng.choice([0, 0, 0.01, 0.04]),
                     "reset_reply": k in ("ret", "boom", "plain") and rng.random() < 0.12,
                     "reset_after_request": k == "ow" and rng.random() < 0.25,
-                    "pad": rng.choice([0, 0, 300, 700, 5000]), "n": rng.randint(1, 3)}
+                    "pad": rng.choice(pads), "n": rng.randint(1, 3)}
 
         clients = []
         for _ in range(nclients):
